@@ -1375,6 +1375,79 @@ def r_delshift(E):
     return res
 
 
+# ---------------------------------------------------------------------------------------------- R-RECORDORDER
+_RO_POSITIVE = '''
+from typing import NamedTuple
+class Span(NamedTuple):
+    start: int
+    end: int
+    def union(self, other):
+        return Span(min(self, other).start, max(self, other).end)
+'''
+_RO_NEGATIVE = '''
+from typing import NamedTuple
+class Span(NamedTuple):
+    start: int
+    end: int
+    def union(self, other):
+        return Span(min(self.start, other.start), max(self.end, other.end))
+    def earliest(self, other):
+        return min(self, other).start
+class Version(NamedTuple):
+    major: int
+    minor: int
+    def newest(self, other):
+        return max(self, other)
+'''
+
+
+def record_order_misuse(tree):
+    """[(class, method, expression, field)]: in a method of a NamedTuple class, `max(self, other).<f>` / `min(self, other).<f>`
+    with <f> not the first field: whole records are ordered field by field from the first one, so the record chosen is the
+    one with the largest / smallest *first* field — its <f> is not the largest / smallest <f>"""
+    out = []
+    for cls in [c for c in ast.walk(tree) if isinstance(c, ast.ClassDef)
+                and any(norm(b).split(".")[-1] == "NamedTuple" for b in c.bases)]:
+        fields = [b.target.id for b in cls.body if isinstance(b, ast.AnnAssign) and isinstance(b.target, ast.Name)]
+        if len(fields) < 2:
+            continue
+        for m in [f for f in cls.body if isinstance(f, ast.FunctionDef) and f.args.args]:
+            me = m.args.args[0].arg
+            for a in [x for x in ast.walk(m) if isinstance(x, ast.Attribute) and x.attr in fields[1:]
+                      and isinstance(x.value, ast.Call) and isinstance(x.value.func, ast.Name) and x.value.func.id in ("min", "max")
+                      and len(x.value.args) >= 2 and not x.value.keywords
+                      and any(isinstance(y, ast.Name) and y.id == me for y in x.value.args)]:
+                out.append((cls, m, a, a.attr))
+    return out
+
+
+@rule("R-RECORDORDER")
+def r_recordorder(E):
+    pm = E.pm
+    res = RuleResult("R-RECORDORDER", "a NamedTuple does not take `max(self, other).<field>` / `min(self, other).<field>` for a "
+                                      "field other than its first: records compare lexicographically, so the record picked is "
+                                      "the one that starts later, not the one that ends later (the union of a long period and "
+                                      "a short one inside it ends with the short one)")
+    for mod, (rel, tree, src) in sorted(pm.modules.items()):
+        res.instances += len([c for c in ast.walk(tree) if isinstance(c, ast.Call) and isinstance(c.func, ast.Name)
+                              and c.func.id in ("min", "max")])
+        for cls, m, a, f in record_order_misuse(tree):
+            res.findings.append(Finding(
+                "R-RECORDORDER", f"{rel}:{cls.name}.{m.name} :: {norm(a)}",
+                f"{cls.name}.{m.name} takes `{norm(a)}`: {cls.name} records are ordered by `{[b.target.id for b in cls.body if isinstance(b, ast.AnnAssign)][0]}` "
+                f"first, so `{norm(a.value)}` is the record with the extreme first field and its `{f}` is not the extreme `{f}` — "
+                f"with one period nested in another the result stops at the inner one's `{f}`", rel, a.lineno,
+                f"{cls.name}.{m.name}", {"clauses": _area(rel)}))
+    pos = record_order_misuse(set_parents(ast.parse(_RO_POSITIVE)))
+    neg = record_order_misuse(set_parents(ast.parse(_RO_NEGATIVE)))
+    if len(pos) != 1 or neg:
+        raise AnalysisError(f"R-RECORDORDER: embedded examples: {len(pos)} of 1 positive recognised, {len(neg)} false reports")
+    res.instances += 1
+    res.samples = [{"embedded_positive_example_recognised": True, "embedded_twins_silent": True}]
+    res.floor = 10
+    return res
+
+
 # ---------------------------------------------------------------------------------------------- R-ORDEFAULT
 @rule("R-ORDEFAULT")
 def r_ordefault(E):
